@@ -115,7 +115,7 @@ B1 = ["int", 1, False, "b", "alias"]
 @st.composite
 def probe_cases(draw):
     """Struct(producer, consumer): the consumer's bytes depend on the context value the producer's generated code stored"""
-    prod = draw(st.sampled_from(["int", "enum", "flag", "mapping", "varint", "const", "computed", "rebuild", "default", "nested", "bytes", "pstr", "array", "parray", "flagsenum"]))
+    prod = draw(st.sampled_from(["int", "enum", "flag", "mapping", "varint", "const", "constbytes", "computed", "rebuild", "default", "nested", "bytes", "pstr", "array", "parray", "flagsenum"]))
     name = "p"
     ref = ["this", [name], draw(st.sampled_from(["attr", "item"]))]
     members = []
@@ -141,6 +141,10 @@ def probe_cases(draw):
     elif prod == "const":
         members.append([name, ["const", 2, B1]])
         e = ref
+    elif prod == "constbytes":
+        members.append([name, ["const", b"ab", None]])
+        e = ["fn", "len", ref]
+        consts = [2, 0, 1]
     elif prod == "computed":
         members.append(["q", B1])
         members.append([name, ["computed", ["bin", "+", ["this", ["q"], "attr"], ["const", 1]]]])
@@ -174,7 +178,7 @@ def probe_cases(draw):
         consts = [True, False]
     cons = draw(st.sampled_from(["bytes", "array", "switch", "ite-eq", "ite-cmp", "if", "ifnot", "computed", "padded", "check", "nestedref", "rebuildexpr", "stopif"]))
     c = draw(st.sampled_from(consts))
-    intlike = prod in ("int", "varint", "const", "computed", "rebuild", "default", "nested", "array", "parray", "bytes", "pstr")
+    intlike = prod in ("int", "varint", "const", "constbytes", "computed", "rebuild", "default", "nested", "array", "parray", "bytes", "pstr")
     if cons in ("bytes", "array", "padded", "rebuildexpr") and not intlike:
         cons = "ite-eq"
     if cons == "bytes":
